@@ -18,29 +18,46 @@ def build_free(ctx, pkg, name):
     return go_build(ctx, pkg, out_name=name, overlay=ov, race=True)
 
 
-def validate_traces(ctx, specdir, module, cfg, trace_files, merged_name="traces.ndjson", lanes=64):
-    """Concatenate trace files, let TLC validate them against the L1 contract.
-    Returns (records, bad) where bad maps 1-based trace index -> set of invariant names."""
-    merged = ctx.path("val", merged_name)
+def validate_traces(ctx, specdir, module, cfg, trace_files, merged_name="traces.ndjson", lanes=64, shard_records=20000,
+                    shard_bytes=48 << 20):
+    """Concatenate trace files, let TLC validate them against the L1 contract (in shards of at most shard_records
+    records / shard_bytes bytes: one TLC run each, so that neither the JSON parse nor the heap grows with the tier).
+    Returns (records, bad, last TLC result) where bad maps 1-based trace index -> set of invariant names."""
+    shard_records = int(os.environ.get("VERIF_SHARD_RECORDS", shard_records))
     recs = []
-    with open(merged, "w") as out:
-        for f in trace_files:
-            with open(f) as fh:
-                for line in fh:
-                    if line.strip():
-                        out.write(line)
-                        recs.append(line)
+    for f in trace_files:
+        with open(f) as fh:
+            for line in fh:
+                if line.strip():
+                    recs.append(line)
     if not recs:
         raise NoVerdict("no traces recorded")
+    shards, cur, size = [], [], 0
+    for k, line in enumerate(recs):
+        if cur and (len(cur) >= shard_records or size + len(line) > shard_bytes):
+            shards.append(cur)
+            cur, size = [], 0
+        cur.append(line)
+        size += len(line)
+    shards.append(cur)
     with open(os.path.join(SPEC, specdir, cfg)) as fh:
-        cfg_text = re.sub(r"K = \d+", "K = %d" % min(lanes, len(recs)), fh.read())
-    res = tlc(ctx, specdir, module, cfg, files=[merged], workers=NCPU, timeout=3000, 
-              expect_violation=True, cfg_text=cfg_text)
-    ctx.tlc_states += res.distinct
-    ctx.tlc_transitions += max(res.generated - 1, 0)
-    bad = bad_traces(res)
-    if not res.ok:
-        raise NoVerdict("trace validation did not complete:\n%s" % (res.violation or "")[:3000])
+        cfg_base = fh.read()
+    bad, res, off = {}, None, 0
+    for n, sh in enumerate(shards):
+        merged = ctx.path("val", "s%d" % n, merged_name)
+        with open(merged, "w") as out:
+            out.writelines(sh)
+        cfg_text = re.sub(r"K = \d+", "K = %d" % min(lanes, len(sh)), cfg_base)
+        res = tlc(ctx, specdir, module, cfg, files=[merged], workers=NCPU, timeout=3000, expect_violation=True, cfg_text=cfg_text,
+                  name="%s-s%d" % (cfg.replace(".cfg", ""), n))
+        ctx.tlc_states += res.distinct
+        ctx.tlc_transitions += max(res.generated - 1, 0)
+        if not res.ok:
+            raise NoVerdict("trace validation did not complete (shard %d of %d):\n%s" % (n + 1, len(shards), (res.violation or "")[:3000]))
+        for idx, invs in bad_traces(res).items():
+            bad[off + idx] = invs
+        off += len(sh)
+        os.remove(merged)
     return recs, bad, res
 
 
